@@ -2,8 +2,9 @@
 //   cvode (dense / sparse): CVODE zeroes the matrix, then calls Jac(); done twice on the same matrix object
 //   odeint: rosenbrock4 keeps one pre-sized matrix and overwrites it in place after every call (J <- I/(gamma dt) - J), so the
 //           second call receives a matrix full of other numbers
-// stdin: T then NEQUATIONS abundances.  stdout: line 1 = k[0..NREACTIONS-1]; lines 2,3 = the full NEQUATIONS x NEQUATIONS matrix
-// (row-major) after the first and after the second call.
+// stdin: T then NEQUATIONS abundances, then a second temperature T2.  stdout: line 1 = k[0..NREACTIONS-1] at T; lines 2,3 = the
+// full NEQUATIONS x NEQUATIONS matrix (row-major) after the first and after the second call; line 4 = k[] at T2; line 5 = the matrix
+// after a third call made at T2 (the integrator moves the temperature between calls: rates whose window is left must be gone).
 #include <stdio.h>
 #include <math.h>
 #include <vector>
@@ -23,14 +24,24 @@ int main() {
     EvalRates(k, y, &d);
     for (int i = 0; i < NREACTIONS; i++) printf("%.17g ", k[i]);
     printf("\n");
+    double T2 = T; if (scanf("%lf", &T2) != 1) T2 = T;
 #ifdef C02_ODEINT
     vector_type ab(NEQUATIONS), dfdt(NEQUATIONS);
     for (int i = 0; i < NEQUATIONS; i++) ab[i] = y[i];
     matrix_type J(NEQUATIONS, NEQUATIONS);
-    Jac jac(&d);
-    for (int call = 0; call < 2; call++) {
-        if (call == 1) for (int i = 0; i < NEQUATIONS; i++) for (int j = 0; j < NEQUATIONS; j++) J(i, j) = 400.0 + i - 3.0 * j;
-        jac(ab, J, 0.0, dfdt);
+    Jac *jac = new Jac(&d);      // (the functor copies the user data when it is built, as Naunet::Solve builds one per call)
+    for (int call = 0; call < 3; call++) {
+        if (call >= 1) for (int i = 0; i < NEQUATIONS; i++) for (int j = 0; j < NEQUATIONS; j++) J(i, j) = 400.0 + i - 3.0 * j;
+        if (call == 2) {
+            d.Tgas = T2;
+            for (int i = 0; i < NREACTIONS; i++) k[i] = NAN;
+            EvalRates(k, y, &d);
+            for (int i = 0; i < NREACTIONS; i++) printf("%.17g ", k[i]);
+            printf("\n");
+            delete jac;
+            jac = new Jac(&d);
+        }
+        (*jac)(ab, J, 0.0, dfdt);
         for (int i = 0; i < NEQUATIONS; i++) for (int j = 0; j < NEQUATIONS; j++) printf("%.17g ", (double)J(i, j));
         printf("\n");
     }
@@ -43,7 +54,14 @@ int main() {
 #else
     SUNMatrix A = SUNDenseMatrix(NEQUATIONS, NEQUATIONS, ctx);
 #endif
-    for (int call = 0; call < 2; call++) {
+    for (int call = 0; call < 3; call++) {
+        if (call == 2) {
+            d.Tgas = T2;
+            for (int i = 0; i < NREACTIONS; i++) k[i] = NAN;
+            EvalRates(k, y, &d);
+            for (int i = 0; i < NREACTIONS; i++) printf("%.17g ", k[i]);
+            printf("\n");
+        }
         SUNMatZero(A);
         Jac(0.0, u, fu, A, &d, NULL, NULL, NULL);
         std::vector<double> full(NEQUATIONS * NEQUATIONS, 0.0);
